@@ -13,3 +13,7 @@ package verifspec
 //@   requires 0 <= n && n <= c
 //@   ensures len(b) == n && cap(b) == c && fresh(b) && offset(b) == 0 && rsize(region(b)) == c
 //@   assigns \nothing
+
+//@ iface error.Error
+//@   results s
+//@   assigns \nothing
